@@ -116,7 +116,7 @@ def check_floors(rep: Report):
 
 
 def write_evidence(rep: Report, tier, seed, wall, unlisted, known, selftest=None, status='ok'):
-    ev_dir = os.path.join(VERIF_DIR, 'evidence')
+    ev_dir = os.environ.get('GTVERIF_EVIDENCE_DIR') or os.path.join(VERIF_DIR, 'evidence')
     os.makedirs(ev_dir, exist_ok=True)
     decided = [i for i in rep.instances if i.verdict in (HOLDS, VIOLATES)]
     nontrivial_keys = {i.key() for i in decided if i.nontrivial}
@@ -183,7 +183,7 @@ def write_evidence(rep: Report, tier, seed, wall, unlisted, known, selftest=None
 
 
 def write_replay(rep: Report, inst: Instance, k):
-    d = os.path.join(VERIF_DIR, 'evidence', 'replay')
+    d = os.path.join(os.environ.get('GTVERIF_EVIDENCE_DIR') or os.path.join(VERIF_DIR, 'evidence'), 'replay')
     os.makedirs(d, exist_ok=True)
     path = os.path.join(d, '{}-{}.json'.format(rep.prop, k))
     with open(path, 'w', encoding='utf8') as f:
